@@ -132,10 +132,37 @@ def _worker(args):
         r = ChunkResult()
         r.violation('harness:chunk-timeout', 'chunk did not finish within backstop', {'chunk': chunk})
         return r.to_dict()
-    except BaseException as e:  # harness error: must be loud
+    except BaseException as e:
         disarm()
+        v = _implementation_raised(mod, chunk, e)
+        if v is not None:
+            return v
+        # harness error: must be loud
         return {'harness_error': ''.join(traceback.format_exception(type(e), e, e.__traceback__)),
                 'chunk': chunk}
+
+
+def _implementation_raised(mod, chunk, e):
+    """An ordinary exception that escapes from the code under test (innermost frame inside the repository's modules) on an
+    input the check generated: wherever a check tolerates exceptions it catches them itself, so here the property demanded
+    a result.  Reported as a violation (replayable by re-running the chunk) instead of a harness error."""
+    if not isinstance(e, Exception):
+        return None
+    tb = traceback.extract_tb(e.__traceback__)
+    if not tb:
+        return None
+    root = os.path.realpath(os.path.join(REPO, 'modules')) + os.sep
+    last = tb[-1]
+    if not os.path.realpath(last.filename).startswith(root):
+        return None
+    r = ChunkResult()
+    r.evals = 1
+    r.outcomes.add('implementation-raised')
+    r.violation('%s:implementation-raised' % mod.PROPERTY,
+                'the code under test raised %s: %s at %s:%d (%s) on an input of the stated domain, where the check expects a '
+                'result' % (type(e).__name__, e, os.path.relpath(os.path.realpath(last.filename), os.path.realpath(REPO)),
+                            last.lineno, last.name), {'chunk': chunk})
+    return r.to_dict()
 
 
 def load_known(prop):
@@ -303,9 +330,15 @@ def run_replay(mod, path):
         rec = json.load(f)
     outs = []
     for _ in range(2):
-        arm(60)
-        vs = mod.eval_case(rec['case'])
-        disarm()
+        if set(rec['case']) == {'chunk'}:
+            # recorded by _implementation_raised: the replay is the chunk itself
+            out = _worker((mod.__name__, rec['case']['chunk']))
+            vs = out.get('violations', []) if 'harness_error' not in out else \
+                [{'key': 'harness-error', 'what': out['harness_error'][-400:]}]
+        else:
+            arm(60)
+            vs = mod.eval_case(rec['case'])
+            disarm()
         outs.append(sorted((v['key'], v['what']) for v in vs))
     if outs[0] != outs[1]:
         print('REPLAY-NONDETERMINISTIC property=%s replay=%s' % (mod.PROPERTY, path))
